@@ -5,3 +5,6 @@ package massdb_v1
 
 // verifMem is the identity unless the package is built with the tag "verif".
 func verifMem(requiredMem uint64) uint64 { return requiredMem }
+
+// verifBeforeWrite does nothing unless the package is built with the tag "verif".
+func verifBeforeWrite() {}
